@@ -15,7 +15,7 @@ def _jobs(tier):
     jobs = []
     for k in range(0, 17):
         jobs.append(dict(sub="kernel", count=KCOUNT[k] * mult, fix=dict(k=k), split=KSPLIT.get(k, 1)))
-    for k in range(1, 17):
+    for k in range(0, 17):  # N = 1 included: the statement quantifies over every n in {1,2,..,65536}
         jobs.append(dict(sub="module", count=geo(k, 24000, 8, 480) * mult, fix=dict(k=k), split=(2 if k >= 15 else 1)))
     return jobs
 
